@@ -166,7 +166,7 @@ PROPS = {
     "C02": {"ready": True, "partial": PARTIAL_D1, "replay": mc_checks.replay,
             "suites": [mc("mc_paths", dict(collect_always=True, depth=(2, 4), caches=("full", "disabled")), refenum=True)]},
     "C03": {"ready": True, "partial": PARTIAL_D1, "replay": mc_checks.replay,
-            "suites": [mc("mc_exhaustive", dict(depth=(2, 4)), refenum=True, cross=mc_checks.COMBOS, n_quick=250)]},
+            "suites": [mc("mc_exhaustive", dict(depth=(2, 4), staged=0.25, p_link=0.3), refenum=True, cross=mc_checks.COMBOS, n_quick=250)]},
     "C07": {"ready": True, "partial": PARTIAL_D1, "replay": mc_checks.replay,
             "suites": [mc("mc_timers", dict(p_timer=0.45, p_send=0.25, p_local=0.05, p_cancel=0.25, p_once=0.35, same_timer_name=0.35, record=0.8,
                                             depth=(3, 5), acts=(1, 4), rules=(2, 5), locals=(1, 3), p_fault=0.05, caches=("disabled", "full")),
@@ -176,7 +176,7 @@ PROPS = {
                                                      p_crash=0.05, p_link=0.05, ops=(8, 20)),
                            nontrivial=lambda st: st["timers_fired"])]},
     "C09": {"ready": True, "replay": mc_checks.replay,
-            "suites": [mc("mc_rerun", dict(two_runs=1.0, staged=0.3)), snapshot_check(walk=0, routes=False)]},
+            "suites": [mc("mc_rerun", dict(two_runs=1.0, staged=0.3, p_link=0.4, p_fault=0.3, p_crash=0.2, nodes=(2, 3), p_send=0.5)), snapshot_check(walk=0, routes=False)]},
     "C10": {"ready": True, "replay": mc_checks.replay, "partial": PARTIAL_D1,
             "suites": [mc("mc_bfs_dfs", dict(depth=(2, 4)), cross=[("dfs", "full"), ("bfs", "full"), ("dfs", "disabled"), ("bfs", "disabled")],
                           n_quick=200)]},
